@@ -44,6 +44,7 @@ pub struct World {
     pub pl: PowerLoss,
     /// power-loss outcomes of the last consumed op (distinct from the kill outcome at the same point)
     pub ploss: Vec<String>,
+    pub ploss_n: usize,
 }
 
 fn is_wal(p: &str) -> bool {
@@ -527,6 +528,7 @@ impl World {
                             continue;
                         }
                         let po = self.recover_at(&st);
+                        self.ploss_n += 1;
                         if po != o && !self.ploss.contains(&po) {
                             self.ploss.push(po);
                         }
@@ -545,8 +547,9 @@ impl World {
 
     fn finish(&mut self, out: String) -> String {
         self.ploss.clear();
+        self.ploss_n = 0;
         let (acts, crashes) = self.consume(true);
-        let pl = if self.cfg.ploss { format!(" ploss={}", if self.ploss.is_empty() { "-".to_string() } else { self.ploss.join("#") }) } else { String::new() };
+        let pl = if self.cfg.ploss { format!(" ploss={} plossn={}", if self.ploss.is_empty() { "-".to_string() } else { self.ploss.join("#") }, self.ploss_n) } else { String::new() };
         format!(
             "{} acts={} crash={}{}",
             out,
@@ -712,6 +715,7 @@ pub fn step(w: &mut Option<World>, line: &str, scratch_root: &Path, case_no: &mu
             fault_armed: false,
             pl: PowerLoss::default(),
             ploss: vec![],
+            ploss_n: 0,
         };
         world.wall = wall.is_some();
         let out = match b {
